@@ -311,10 +311,19 @@ func (x *Exec) iteValue(c *Term, a, b Value) Value {
 }
 
 func (x *Exec) tryIte(c *Term, a, b Value) (Value, bool) {
+	return x.tryIteS(c, a, b, false)
+}
+
+// tryIteS: with strict set, two distinct integer constants are not merged (they are
+// typically cursors, lengths or counters that later code needs concretely).
+func (x *Exec) tryIteS(c *Term, a, b Value, strict bool) (Value, bool) {
 	switch av := a.(type) {
 	case *Term:
 		bv, ok := b.(*Term)
 		if !ok || av.S != bv.S {
+			return nil, false
+		}
+		if strict && av != bv && av.IsConst() && bv.IsConst() && av.S.K == KBV {
 			return nil, false
 		}
 		return x.tf.Ite(c, av, bv), true
@@ -328,7 +337,11 @@ func (x *Exec) tryIte(c *Term, a, b Value) (Value, bool) {
 		}
 		out := make([]Value, len(av.F))
 		for i := range av.F {
-			v, ok := x.tryIte(c, av.F[i], bv.F[i])
+			if av.F[i] == bv.F[i] {
+				out[i] = av.F[i]
+				continue
+			}
+			v, ok := x.tryIteS(c, av.F[i], bv.F[i], strict)
 			if !ok {
 				return nil, false
 			}
